@@ -24,14 +24,25 @@ SHRINK_BUDGET = 60
 RULE = ("one utility call per line on exact-size heap buffers under ASan/UBSan; next_pow_of_2 on 0, 2^k, 2^k+-1 "
         "(k=0..64), seeded random 64- and 32-bit values; the six integer parsers on numerals at INT/UINT/LONG/ULONG "
         "MIN/MAX +-{0,1,2} with signs, bases 0/2/8/10/16/36 (with and without prefix), leading/trailing blanks and "
-        "trailing junk, plus malformed specials; float parsers on finite/overflowing/inf/nan/hex numerals; "
+        "trailing junk, plus malformed specials, bases the strtol family refuses (1, 37, negative, huge), NULL string / "
+        "NULL out-parameter; float parsers on finite/overflowing/inf/nan/hex numerals and on underflowing ones (to zero, "
+        "to an inexact subnormal, exact subnormals, both sides of the smallest normal / smallest subnormal of float, "
+        "double and x87 long double), the generator's expected libc result (consumed, inf, ERANGE, zero) compared with "
+        "the real strtof/strtod/strtold; "
         "path functions on generated plain paths and idiosyncratic ones for EVERY size 0..len+2, and on mixed-separator "
+        "long inputs in BOTH tiers (total lengths 255/256, 511/512, 1023/1024 = MUGGLE_MAX_PATH, 1025; thorough +-1 as "
+        "well) for basename/dirname/normpath/join/abspath with sizes around them; "
         "strings over {a,b,/,\\,:,.} (thorough: every string of length <= 6; quick: every string of length <= 3 plus a "
         "seeded sample of the longer ones), join pairs over them, the library's own join products fed back to basename/"
         "dirname/normpath, abspath with mixed cwd/path, each for every size 0..len+2; strip/startswith/"
-        "endswith on all byte values 1..255; find/count exhaustively on short strings over {a,b}; hex on all byte "
+        "endswith on all byte values 1..255; find/count exhaustively on short strings over {a,b} and on periodic / "
+        "nearly-matching / overlapping haystack-needle pairs up to 40 bytes over every byte value (needle longer than the "
+        "haystack, empty needle, windows), startswith/endswith with every prefix / suffix length and one byte changed at "
+        "every position, strip on blank runs around longer texts, NULL arguments of every str.c function; hex on all byte "
         "values; MUGGLE_ENDIAN_SWAP_16 on EVERY 16-bit value with operands of type uint16/uint32/uint64/int consumed as a "
         "wider integer and as a nested round trip without a 16-bit store (swapw), SWAP_32 likewise on uint64 operands; "
+        "every macro on an lvalue operand of EVERY integer type int8..int64 / uint8..uint64 (negative values, INT_MIN, "
+        "low/high byte >= 0x80) consumed as uint64, int64, uintN and as a nested round trip (swapt); "
         "a case is non-trivial when the call returned success; distinct = distinct case text")
 TRUSTED_BASE = [
     "assumed libc behaviour (modelled in Gallina, compared with the real functions on every numeral of every run): "
@@ -39,21 +50,37 @@ TRUSTED_BASE = [
     "float parsers: strtof/strtod/strtold are an abstract oracle (consumed length, is-infinite, ERANGE); the value the "
     "wrapper stores is compared bit for bit with the real function by the driver, never inside Coq",
     "leaf translator lib/props/c20_leaf.py (clang 14 JSON AST -> Gallina) for muggle_next_pow_of_2, muggle_hex_to_byte "
-    "and muggle_path_isabs (a const char* parameter is a byte list; strlen and s[k] with literal k only); the separator "
+    "and muggle_path_isabs (a const char* parameter is a byte list; strlen and s[k] with literal k only); for the six "
+    "integer parsers (translate_parser: the whole wrapper over an abstract libc result - returned value, end offset, "
+    "ERANGE, *endptr, lstrip_idx(endptr), str[lstrip_idx(str)], errno and *pval on entry; a char read is its byte value, "
+    "only compared with ASCII constants); for lstrip_idx/rstrip_idx/startswith/endswith (translate_loop: prelude; one "
+    "loop; epilogue -> an iteration function run by Loop.run_loop with fuel 1 + the string lengths; isspace -> "
+    "Model.is_space (clang is run with -D__NO_CTYPE so that isspace is a call), memcmp(..) == 0 -> Loop.mem_eq, s[e] -> "
+    "nth, reading the terminator or beyond gives 0); the separator "
     "scan of basename/dirname is tied by a recognised loop shape (descending `while (p >= 0) { if (C) break; --p; }`), "
     "whose meaning 'index of the last character satisfying C' is part of the trusted translator",
     "hex_from_bytes: the 256-row string table of hex.c is modelled as 'two upper-case hex digits'; all 256 rows are "
     "compared on every run",
 ]
 ASSUMPTIONS = [
-    "base argument of the integer parsers is 0 or 2..36 (glibc leaves endptr unset otherwise)",
     "strings are NUL-terminated and shorter than 2^31; the output buffer has exactly the size passed",
     "muggle_os_curdir succeeds with a path shorter than MUGGLE_MAX_PATH (abspath takes cwd as a parameter)",
     "hex_to_bytes/hex_from_bytes: the caller's buffers have the documented sizes",
 ]
 EVIDENCE_NOTES = [
-    "the model transcribes the REPAIRED code (fixes/C20-01..14); on the unchanged tree the check reports VIOLATION "
-    "with the replays kept under corpus/C20/",
+    "the model transcribes the REPAIRED code (fixes/C20-01..17); on the unchanged tree the check reports VIOLATION "
+    "with the replays kept under corpus/C20/ (15: corpus-swap32-signed-operand, 16: corpus-float-underflow, 17: "
+    "corpus-invalid-base)",
+    "C text tied to the model by regenerated obligations: gen_npo2_eq, gen_hex_to_byte_eq, gen_isabs_eq, "
+    "gen_last_sep_scan_eq, gen_parsers_eq + gen_parser_libc (the six integer parsers: NULL checks, base check, errno "
+    "reset, which strtol-family member is called, end-pointer tests, range / sign chain, store, return codes), "
+    "gen_strip_eq, gen_startswith_endswith_eq; NOT tied by a translator (differential run + monitor only): "
+    "muggle_str_find / muggle_str_count (strstr pointer arithmetic, two loop variables), the float wrappers, the path "
+    "functions other than isabs and the separator scan, hex_to_bytes / hex_from_bytes",
+    "integer parsers: exact for EVERY base (toX base s = Some v <-> valid_base base /\\ well_formed .. /\\ range); "
+    "float wrapper: success <-> converted, only blanks behind, libc reported no range error (overflow or underflow)",
+    "endian_swap_any_operand: the macros' value depends only on the low N bits of the operand (any integer type, "
+    "negative values included), the nested round trip returns those bits, intN_t/uintN_t objects are restored",
     "PROVED in Coq, unbounded: next_pow_of_2 least power of two on [1,2^63] + behaviour outside (0 and >2^63 -> 0) + "
     "gen_npo2_eq / gen_hex_to_byte_eq / gen_isabs_eq / gen_last_sep_scan_eq (C text regenerated by the leaf translator on "
     "every run; the last one ties the separator predicate of basename's and dirname's backwards scan to is_sep); toi/tou/tol/toul/toll/"
@@ -103,15 +130,19 @@ def unhx(t):
     return b"" if t == "-" else binascii.unhexlify(t)
 
 
+NULLTOK = "~"      # a NULL pointer (only the str.c functions are documented to accept one)
+
+
 # ---------------------------------------------------------------------------
 # Params: leaf translator output (regenerated from the working tree on every run)
 
 def gen_params(ctx):
     V.gen_config_header()
     parts = ["(* GENERATED by lib/props/c20.py (leaf translator, DESIGN.md 4.4) from",
-             "   muggle/c/base/utils.c, muggle/c/encoding/hex.c and muggle/c/os/path.c of the checked tree.",
+             "   muggle/c/base/utils.c, muggle/c/base/str.c, muggle/c/encoding/hex.c and muggle/c/os/path.c of the checked tree.",
              "   Do not edit. *)",
-             "From Coq Require Import ZArith NArith Bool List.", ""]
+             "From Coq Require Import ZArith NArith Bool List.",
+             "From MV Require Import C20.Model C20.Loop.", ""]
     for rel, fn, gname, mode, fallback in (
             ("muggle/c/base/utils.c", "muggle_next_pow_of_2", "gen_npo2", "N",
              "Definition gen_npo2 (x : N) : N := (x + 12345)%N.\n"),
@@ -137,6 +168,29 @@ def gen_params(ctx):
             msg = str(e).replace("*)", "* )").replace("(*", "( *")[:300]
             parts.append("(* TRANSLATOR ERROR for the separator scan of %s: %s *)" % (fn, msg))
             parts.append("Definition %s (c : Z) : bool := (c =? 12345)%%Z.\n" % gname)
+    # the six integer parsers: the whole wrapper body over an abstract libc result (c20_leaf.translate_parser)
+    for fn in ("toi", "tou", "tol", "toul", "toll", "toull"):
+        gname = "gen_" + fn
+        try:
+            ld = lambda name: LEAF.clang_ast(V.REPO, "muggle/c/base/str.c", name, INCLUDE_DIRS)
+            parts.append(LEAF.translate_parser(ld("muggle_str_" + fn), gname, loader=ld))
+        except Exception as e:
+            msg = str(e).replace("*)", "* )").replace("(*", "( *")[:300]
+            parts.append("(* TRANSLATOR ERROR for muggle_str_%s: %s *)" % (fn, msg))
+            parts.append("Definition %s (str_null pval_null : bool) (base errno0 pval0 lret lend endc tailidx firstc : Z) "
+                         "(ler : bool) : Z * Z := (12345, 12345)%%Z.\n\nDefinition %s_libc : Z := 0%%Z.\n" % (gname, gname))
+    # prelude ; one loop ; epilogue  over strings (c20_leaf.translate_loop); isspace must be a call: -D__NO_CTYPE
+    for fn, gname, fb_args in (("lstrip_idx", "gen_lstrip_idx", "(str_null : bool) (str : list Z)"),
+                               ("rstrip_idx", "gen_rstrip_idx", "(str_null : bool) (str : list Z)"),
+                               ("startswith", "gen_startswith", "(a_null b_null : bool) (a b : list Z)"),
+                               ("endswith", "gen_endswith", "(a_null b_null : bool) (a b : list Z)")):
+        try:
+            f = LEAF.clang_ast(V.REPO, "muggle/c/base/str.c", "muggle_str_" + fn, INCLUDE_DIRS, defines=["__NO_CTYPE"])
+            parts.append(LEAF.translate_loop(f, gname))
+        except Exception as e:
+            msg = str(e).replace("*)", "* )").replace("(*", "( *")[:300]
+            parts.append("(* TRANSLATOR ERROR for muggle_str_%s: %s *)" % (fn, msg))
+            parts.append("Definition %s %s : option Z := Some 12345%%Z.\n" % (gname, fb_args))
     return "\n".join(parts)
 
 
@@ -161,7 +215,10 @@ def strip_blanks(s):
 
 
 def ref_int_value(s, base):
-    """value of a single well-formed numeral with surrounding blanks, else None"""
+    """value of a single well-formed numeral with surrounding blanks, else None; a base other than 0 or 2..36
+    denotes no numeral at all"""
+    if base != 0 and not 2 <= base <= 36:
+        return None
     body = strip_blanks(s)
     try:
         t = body.decode("ascii")
@@ -191,10 +248,12 @@ FLOAT_RE = re.compile(
     r"[+-]?(?:infinity|inf|nan(?:\([0-9a-zA-Z_]*\))?"
     r"|0[xX](?:[0-9a-fA-F]+\.?[0-9a-fA-F]*|\.[0-9a-fA-F]+)(?:[pP][+-]?[0-9]+)?"
     r"|(?:[0-9]+\.?[0-9]*|\.[0-9]+)(?:[eE][+-]?[0-9]+)?)", re.I)
+# binary formats: precision p (bits, the explicit leading bit of x87 extended included) and the exponent of the
+# smallest subnormal 2^qmin; the smallest NORMAL number is 2^(qmin+p-1), the largest finite (2-2^(1-p))*2^emax
+FLT_FMT = {"tof": (24, -149, 127), "tod": (53, -1074, 1023), "told": (64, -16445, 16383)}
 # overflow threshold = largest finite + half an ulp (ties go to infinity: the largest finite is odd)
-FLT_OVER = {"tof": (2 - Fraction(1, 1 << 24)) * (1 << 127),
-            "tod": (2 - Fraction(1, 1 << 53)) * (1 << 1023),
-            "told": (2 - Fraction(1, 1 << 64)) * (1 << 16383)}
+FLT_OVER = {op: (2 - Fraction(1, 1 << p)) * (1 << emax) for op, (p, _q, emax) in FLT_FMT.items()}
+TINY = Fraction(1, 10 ** 20000)        # stands for any non-zero magnitude below every format's smallest subnormal
 
 
 def float_exact(t):
@@ -204,17 +263,19 @@ def float_exact(t):
         m = re.fullmatch(r"0x([0-9a-f]*)\.?([0-9a-f]*)(?:p([+-]?[0-9]+))?", t)
         ip, fp, ex = m.group(1), m.group(2), int(m.group(3) or 0)
         v = Fraction(int((ip + fp) or "0", 16), 16 ** len(fp))
+        if abs(ex) > 70000:
+            return Fraction(0) if v == 0 else (TINY if ex < 0 else Fraction(10) ** 20000)
         return v * (Fraction(2) ** ex)
     m = re.fullmatch(r"([0-9]*)\.?([0-9]*)(?:e([+-]?[0-9]+))?", t)
     ip, fp, ex = m.group(1), m.group(2), int(m.group(3) or 0)
     v = Fraction(int((ip + fp) or "0"), 10 ** len(fp))
     if abs(ex) > 20000:
-        return Fraction(0) if ex < 0 or v == 0 else Fraction(10) ** 20000
+        return Fraction(0) if v == 0 else (TINY if ex < 0 else Fraction(10) ** 20000)
     return v * (Fraction(10) ** ex)
 
 
 def float_prefix(s):
-    """(consumed, is_inf, overflow per type dict) of the longest numeral prefix after blanks; consumed 0 = none"""
+    """(consumed, numeral text) of the longest numeral prefix after blanks; consumed 0 = none"""
     i = 0
     while i < len(s) and s[i] in BLANKS:
         i += 1
@@ -228,17 +289,65 @@ def float_prefix(s):
     return i + m.end(), m.group(0)
 
 
+def _rne(x):
+    """round a non-negative Fraction to the nearest integer, ties to even"""
+    n = x.numerator // x.denominator
+    rem = x - n
+    if rem > Fraction(1, 2) or (rem == Fraction(1, 2) and n % 2 == 1):
+        n += 1
+    return n
+
+
+def float_round(v, op):
+    """v > 0 exact -> (r, inexact, tiny): r = v rounded to nearest-even on the format's grid (subnormals
+    included, unbounded above); tiny = the value rounded with an UNBOUNDED exponent range is still below the
+    smallest normal number (tininess detected after rounding, as x86 glibc does)"""
+    p, qmin, _emax = FLT_FMT[op]
+    e = v.numerator.bit_length() - v.denominator.bit_length()
+    while Fraction(2) ** e > v:
+        e -= 1
+    while Fraction(2) ** (e + 1) <= v:
+        e += 1
+    q = max(e - (p - 1), qmin)
+    r = _rne(v / Fraction(2) ** q) * Fraction(2) ** q
+    qu = e - (p - 1)
+    ru = _rne(v / Fraction(2) ** qu) * Fraction(2) ** qu
+    return r, r != v, ru < Fraction(2) ** (qmin + p - 1)
+
+
 def float_class(num, op):
-    """-> (is_inf, erange) expected of libc for numeral text num"""
+    """-> (is_inf, is_zero, erange) expected of libc (glibc, round to nearest) for numeral text num"""
     t = num.lstrip("+-").lower()
     if t.startswith("inf"):
-        return 1, 0
+        return 1, 0, 0
     if t.startswith("nan"):
-        return 0, 0
+        return 0, 0, 0
     v = float_exact(t)
+    if v == 0:
+        return 0, 1, 0
     if v >= FLT_OVER[op]:
-        return 1, 1
-    return 0, None      # erange may be 1 on underflow; unknown here
+        return 1, 0, 1
+    if v == TINY:
+        return 0, 1, 1
+    r, inexact, tiny = float_round(v, op)
+    return 0, int(r == 0), int(tiny and inexact)
+
+
+def float_in_range(num, op):
+    """the PROPERTY's verdict on a well-formed numeral: in range iff converting it is no range error in the sense
+    of C11 7.12.1 - no overflow (the correctly rounded value is finite) and no underflow (the value is zero, or its
+    correctly rounded value is a normal number, or it is an exactly representable subnormal: nothing of the
+    numeral is silently lost beyond the rounding to the type's full precision)"""
+    t = num.lstrip("+-").lower()
+    if t.startswith(("inf", "nan")):
+        return True
+    v = float_exact(t)
+    if v == 0:
+        return True
+    if v >= FLT_OVER[op] or v == TINY:
+        return False
+    _r, inexact, tiny = float_round(v, op)
+    return not (tiny and inexact)
 
 
 SEPS = "/\\"
@@ -343,11 +452,23 @@ def expected(line):
     if op == "swapw32":
         v = int(w[1]) % (1 << 32)
         return ["%d %d" % (int.from_bytes(v.to_bytes(4, "little"), "big"), v)]
+    if op == "swapt":
+        n, ty, v = int(w[1]), w[2], int(w[3])
+        bits, signed = int(ty[1:]), ty[0] == "i"
+        x = v % (1 << bits)                        # the object of type T holding (T)V ...
+        if signed and x >= 1 << (bits - 1):
+            x -= 1 << bits                         # ... and its value
+        low = x % (1 << n)                         # the N bits the macro swaps
+        r = int.from_bytes(low.to_bytes(n // 8, "little"), "big")
+        s64 = r - (1 << 64) if r >= 1 << 63 else r
+        return ["%d %d %d %d" % (r, s64, r, low)]
     if op in ("swap16", "swap32", "swap64"):
         n = int(op[4:]) // 8
         v = int(w[1]) % (1 << (8 * n))
         return [str(int.from_bytes(v.to_bytes(n, "little"), "big"))]
     if op in INT_RANGES:
+        if w[2] == NULLTOK or w[-1] == "P0":
+            return ["fail", "libc -"]
         base, s = int(w[1]), unhx(w[2])
         v = ref_int_value(s, base)
         lo, hi = INT_RANGES[op]
@@ -355,13 +476,18 @@ def expected(line):
             return ["ok %d" % v, None]
         return ["fail", None]
     if op in ("tof", "tod", "told"):
+        if w[1] == NULLTOK or w[-1] == "P0":
+            return ["fail", "libcf -"]
         s = unhx(w[1])
         consumed, num = float_prefix(s)
-        ok = False
-        if consumed and all(c in BLANKS for c in s[consumed:]):
-            inf, er = float_class(num, op)
-            ok = not (inf and er)
+        ok = bool(consumed) and all(c in BLANKS for c in s[consumed:]) and float_in_range(num, op)
         return ["ok" if ok else "fail", "FLOATLIBC"]
+    if op in ("lstrip", "rstrip") and w[1] == NULLTOK:
+        return ["-1"]
+    if op in ("startswith", "endswith") and NULLTOK in w[1:3]:
+        return ["0"]
+    if op in ("find", "count") and NULLTOK in w[1:3]:
+        return ["-1" if op == "find" else "0"]
     if op == "lstrip":
         s = unhx(w[1])
         n = 0
@@ -499,7 +625,7 @@ def describe(ln):
     w = ln.split(" ")
     out = [w[0]]
     for i, t in enumerate(w[1:], 1):
-        out.append(repr(unhx(t))[1:] if i in STRPOS.get(w[0], ()) else t)
+        out.append(("NULL" if t == NULLTOK else repr(unhx(t))[1:]) if i in STRPOS.get(w[0], ()) else t)
     return " ".join(out)
 
 
@@ -553,6 +679,10 @@ def numerals(rng, tier):
     for s in specials:
         for base in (0, 10, 16, 8, 36, 2):
             out.append((base, s))
+    # bases the strtol family does not accept (glibc: EINVAL, endptr left unset): every wrapper must refuse
+    for base in (1, -1, 37, 38, 100, -10, -16, 255, 256, 65536, 2147483647, -2147483648):
+        for s in (b"0", b"1", b"12", b" 12 ", b"-7", b"+0", b"z", b"10", b"0x1f", b"", b" ", b"x", b"9" * 25):
+            out.append((base, s))
     n = 200 if tier == "quick" else 3000
     for _ in range(n):
         base = rng.choice([0, 10, 16, 8, 2, 36, 7, 3, 35])
@@ -568,13 +698,28 @@ def float_cases(rng, tier):
               "1.7976931348623157e308", "1.8e308", "-1.8e308", "1e309", "-1e309", "1e4932", "1.2e4932", "-1.2e4932",
               "1e4933", "-1e4933", "1e5000", "10e300", "10e10000", "inf", "-inf", "INF", "infinity", "-Infinity", "nan",
               "NAN", "-nan", "nan(1)", "0x1p3", "0x1.8p1", "-0x.8p0", "0x1p128", "0x1p1024", "0x1p16384", "0x1p20000",
-              "123456789012345678901234567890", "0.1", "1e-3", "2.5e-5"]
+              "123456789012345678901234567890", "0.1", "1e-3", "2.5e-5",
+              # underflow to zero, subnormal results (exact and inexact), both sides of every boundary
+              "1e-50", "-1e-50", "1e-46", "7e-46", "7.1e-46", "1.4e-45", "1e-45", "1e-40", "-1e-40", "1.1754942e-38",
+              "1.17549435e-38", "1.1754943e-38", "1.17549421e-38", "0x1p-149", "0x1p-150", "0x1.8p-150", "0x1.000002p-150",
+              "0x1p-151", "0x1p-126", "0x1.fffffcp-127", "0x1.fffffep-127", "0x1.ffffffp-127", "0x.8p-148",
+              "1e-400", "-1e-400", "1e-324", "2e-324", "2.4e-324", "2.5e-324", "3e-324", "4.9e-324", "5e-324", "-4.9e-324",
+              "1e-310", "2.2250738585072014e-308", "2.2250738585072011e-308", "2.225073858507201e-308",
+              "0x1p-1074", "0x1p-1075", "0x1.8p-1075", "0x1.0000000000001p-1075", "0x1p-1022", "0x1.fffffffffffffp-1023",
+              "0x1.fffffffffffff8p-1023", "1e-5000", "-1e-5000", "1e-4951", "1.8e-4951", "1.9e-4951", "3.6e-4951", "1e-4940",
+              "3.3621031431120935e-4932", "3.362103143112093e-4932", "0x1p-16445", "0x1p-16446", "0x1.8p-16446",
+              "0x1p-16382", "0x1p-16383", "0x1p-20000", "0x1p-99999", "1e-99999", "0e-99999", "0.0e-400", "0x0p-99999", "-0.0",
+              "0." + "0" * 60 + "1", "0." + "0" * 330 + "1", "1" + "0" * 40, "1" + "0" * 310, "0." + "0" * 46 + "7"]
     junk = ["", " ", "\t\n", " 5", "x", "e", "e+", "f", "(", "in"]
     pre = ["", " ", "\n\t"]
     bad = ["", " ", "hello", ".", "e5", "+", "-", "- 1", "in", "na", "0x", ".e1", "++1", "i", "n"]
     out = []
-    for b in bodies:
-        for j in (junk if tier != "quick" else junk[:6]):
+    first_new = bodies.index("1e-50")
+    for i, b in enumerate(bodies):
+        jj = junk if tier != "quick" else junk[:6]
+        if tier == "quick" and i >= first_new:
+            jj = junk[:3]          # the range-error cases matter with nothing / blanks behind them; junk is covered above
+        for j in jj:
             for p in (pre if tier != "quick" else pre[:2]):
                 out.append((p + b + j).encode())
     for b in bad:
@@ -730,6 +875,166 @@ def mixed_path_cases(rng, tier):
             k += 1
     return cases
 
+LONG_MARKS = (255, 256, 511, 512, 1023, 1024)      # 1024 = MUGGLE_MAX_PATH
+
+
+def long_path_cases(rng, tier):
+    """long inputs for ALL five path functions in BOTH tiers: total lengths around 255/256, 511/512, 1023/1024
+    (= MUGGLE_MAX_PATH, the size of abspath's two stack buffers) and output sizes around them.  One call per case."""
+    cases = []
+
+    def add(name, line):
+        cases.append(V.Case(name, [line]))
+
+    def sizes_around(need, extra=()):
+        return sorted(set([0, 1, 2, need - 2, need - 1, need, need + 1, need + 2] + list(extra)))
+
+    totals = sorted(set(m + d for m in LONG_MARKS for d in (-1, 0, 1)))
+    if tier == "quick":
+        totals = list(LONG_MARKS) + [1025]          # the model needs ~30 ms per call on 1024-cell buffers
+    k = 0
+    for T in totals:
+        # basename / dirname / normpath: a long directory part, a long base part, a long single component
+        for path in (b"/" + b"d" * (T - 6) + b"/base", b"dd/" + b"b" * (T - 3), b"n" * T, b"./" + b"q" * (T - 2),
+                     b"/" + b"e" * (T // 2 - 1) + b"/" + b"f" * (T - T // 2 - 1)):
+            assert len(path) == T, (T, len(path))
+            for op in ("basename", "dirname", "normpath"):
+                ref = {"basename": ref_basename, "dirname": ref_dirname}.get(op)
+                r = ref(path.decode("latin-1")) if ref else None
+                needs = set([T + 1])
+                if r is not None:
+                    needs.add(len(r) + 1)
+                for need in sorted(needs):
+                    for size in (need - 1, need, need + 1):
+                        add("lp%d-%s-%d" % (k, op, size), "%s %d %s" % (op, size, hx(path)))
+            add("lp%d-isabs" % k, "isabs %s" % hx(path))
+            k += 1
+        # normpath with ".." that pops a long component / keeps a long "../" chain
+        for path in (b"/" + b"g" * (T - 9) + b"/../tail", b"../" * ((T - 1) // 3) + b"x" * (T - 3 * ((T - 1) // 3))):
+            for size in (T, T + 1, T + 2):
+                add("lp%d-normpath-%d" % (k, size), "normpath %d %s" % (size, hx(path)))
+            k += 1
+        # join: long left / long right / both; the product has exactly T bytes
+        for a, b in ((b"/" + b"l" * (T - 3), b"r"), (b"l", b"r" * (T - 2)), (b"l" * (T // 2), b"/" + b"r" * (T - T // 2 - 1)),
+                     (b"l" * (T - 3) + b"/", b"rr")):
+            j = ref_join(a.decode("latin-1"), b.decode("latin-1"))
+            assert j is not None and len(j) == T, (T, len(j))
+            for size in sizes_around(T + 1)[3:]:
+                add("lj%d-%d" % (k, size), "join %d %s %s" % (size, hx(a), hx(b)))
+            k += 1
+        # abspath: cwd + "/" + path has exactly T bytes (T >= 1024 does not fit MUGGLE_MAX_PATH: an error, no overflow)
+        for cwd, q in ((b"/" + b"y" * (T - 3), b"a"), (b"/w", b"p" * (T - 3)), (b"/" + b"y" * (T - 9), b"../a/bc"),
+                       (b"/" + b"y" * (T // 2 - 1), b"z" * (T - T // 2 - 1))):
+            assert len(cwd) + 1 + len(q) == T, (T, len(cwd), len(q))
+            if tier == "quick" and cwd == b"/w" and T % 2 == 0:
+                continue
+            for size in ((T, T + 1, T + 2) if tier == "quick" else (T, T + 1, T + 2, 2048)):
+                add("la%d-%d" % (k, size), "abspath %d %s %s" % (size, hx(cwd), hx(q)))
+            k += 1
+        # abspath of a long ABSOLUTE path (copied, not joined)
+        q = b"/" + b"h" * (T - 1)
+        for size in (T, T + 1, T + 2):
+            add("la%d-%d" % (k, size), "abspath %d %s %s" % (size, hx(b"/w"), hx(q)))
+        k += 1
+    return cases
+
+
+def rotations(w):
+    return [w[i:] + w[:i] for i in range(len(w))]
+
+
+def long_string_lines(rng, tier):
+    """find / count / startswith / endswith / strip on inputs well beyond length 5 and alphabets beyond {a,b,c}:
+    periodic haystacks, overlapping and nearly-matching needles (what a hand-rolled strstr gets wrong), needles longer
+    than the haystack, empty needle, every byte value; NULL arguments."""
+    out = []
+    units = [b"a", b"ab", b"aab", b"aba", b"abc", b"abcab", b"aabaa", b"abab", b"\xff\x80", b"\x01\xfe\x01", b"a\xe9", b"xyzxy"]
+    hay = []
+    for u in units:
+        for n in (6, 7, 12, 13, 24):
+            s = (u * (n // len(u) + 1))[:n]
+            hay.append(s)
+            hay.append(s[:-1] + (b"z" if s[-1:] != b"z" else b"y"))      # period broken at the end
+            hay.append(s[: n // 2] + b"q" + s[n // 2:])                   # ... and in the middle
+    # the classic failures of a search that skips ahead after a partial match
+    classic = [(b"aaab" * 3, b"aab"), (b"aaaaaaaab", b"aaab"), (b"ababac", b"abac"), (b"abababc", b"ababc"),
+               (b"aabaabaac", b"aabaac"), (b"abcabcabd", b"abcabd"), (b"xxxxxxxy", b"xxxy"), (b"aaaaaa", b"aa"),
+               (b"aaaaaaa", b"aaa"), (b"abababa", b"aba"), (b"abababab", b"abab"), (b"mississippi", b"issip"),
+               (b"mississippi", b"ssi"), (b"\x80\x80\x80\x81", b"\x80\x81"), (b"\xff\xff\xfe", b"\xff\xfe")]
+    pairs = list(classic)
+    for s in hay:
+        subs = set([b"", s, s + b"a", s[1:], s[:-1], s * 2, s[-3:], s[:3], s[2:7], s[len(s) // 2:], s[len(s) // 2 - 2:len(s) // 2 + 3]])
+        for sub in list(subs):
+            if len(sub) >= 2:
+                k = rng.below(len(sub))
+                subs.add(sub[:k] + bytes([(sub[k] % 255) + 1]) + sub[k + 1:])        # one byte changed
+                subs.update(rotations(sub)[1:3])
+        for sub in subs:
+            if b"\x00" not in sub:
+                pairs.append((s, sub))
+    n_rand = 150 if tier == "quick" else 3000
+    for _ in range(n_rand):
+        alpha = rng.choice([b"ab", b"abc", b"ab ", bytes(range(1, 256)), b"\x7f\x80\xff", b"aA"])
+        s = bytes(rng.choice(list(alpha)) for _ in range(rng.range(6, 40)))
+        if rng.chance(2, 3):
+            i = rng.below(len(s)); j = rng.range(i, min(len(s), i + 9))
+            sub = s[i:j]
+        else:
+            sub = bytes(rng.choice(list(alpha)) for _ in range(rng.range(0, 6)))
+        pairs.append((s, sub))
+    if tier == "quick":
+        keep = classic + rng.shuffle(pairs[len(classic):])[:700]
+        pairs = keep
+    for s, sub in pairs:
+        L = len(s)
+        wins = [(0, 0), (1, 0), (0, L - 1), (2, L), (0, L + 5), (L // 2, 0), (L - 1, 0), (1, L - 1), (0, max(len(sub), 1)),
+                (L - max(len(sub), 1), 0)]
+        if tier == "quick":
+            wins = wins[:3] + [wins[3 + rng.below(len(wins) - 3)]]
+        for a, b in wins:
+            if a < 0:
+                continue
+            out.append("find %s %s %d %d" % (hx(s), hx(sub), a, b))
+            if sub:
+                out.append("count %s %s %d %d" % (hx(s), hx(sub), a, b))
+    # startswith / endswith: every prefix / suffix length, one byte changed at every position, longer than the string
+    sw = [b"abcabcabcabc", b"aaaaaaaaab", b"\xff\x80\xff\x80\x7f", b"path/to/file.txt", b"x" * 33]
+    for s in sw:
+        for k in range(0, len(s) + 1):
+            out.append("startswith %s %s" % (hx(s), hx(s[:k])))
+            out.append("endswith %s %s" % (hx(s), hx(s[len(s) - k:])))
+            if k and (tier != "quick" or k % 3 == 1 or k == len(s)):
+                for pos in (0, k // 2, k - 1):
+                    pre = s[:k]
+                    bad = pre[:pos] + bytes([(pre[pos] % 255) + 1]) + pre[pos + 1:]
+                    out.append("startswith %s %s" % (hx(s), hx(bad)))
+                    suf = s[len(s) - k:]
+                    bad = suf[:pos] + bytes([(suf[pos] % 255) + 1]) + suf[pos + 1:]
+                    out.append("endswith %s %s" % (hx(s), hx(bad)))
+        out.append("startswith %s %s" % (hx(s), hx(s + b"a")))
+        out.append("endswith %s %s" % (hx(s), hx(b"a" + s)))
+        out.append("startswith %s %s" % (hx(s), hx(s[1:])))
+        out.append("endswith %s %s" % (hx(s), hx(s[:-1])))
+    # strip indices: runs of every blank character before / behind / inside longer texts
+    texts = [b"x", b"word", b"two words", b"a\tb\nc", b"\x85\xa0", b"\xff", b"0", b"a" * 30, b"in  ner   blanks"]
+    for tx in texts:
+        for nl in (0, 1, 2, 6, 11):
+            for nr in (0, 1, 5, 12):
+                lead = bytes(BLANKS[(i * 5 + nl) % 6] for i in range(nl))
+                trail = bytes(BLANKS[(i * 7 + nr) % 6] for i in range(nr))
+                out.append("lstrip %s" % hx(lead + tx + trail))
+                out.append("rstrip %s" % hx(lead + tx + trail))
+    for n in (3, 8, 21, 64):
+        out.append("lstrip %s" % hx(bytes(BLANKS[i % 6] for i in range(n))))
+        out.append("rstrip %s" % hx(bytes(BLANKS[i % 6] for i in range(n))))
+    # NULL arguments (str.c checks them)
+    N, A = NULLTOK, hx(b"ab")
+    out += ["lstrip " + N, "rstrip " + N, "startswith %s %s" % (N, A), "startswith %s %s" % (A, N), "startswith %s %s" % (N, N),
+            "endswith %s %s" % (N, A), "endswith %s %s" % (A, N), "endswith %s %s" % (N, N),
+            "find %s %s 0 0" % (N, A), "find %s %s 0 0" % (A, N), "find %s %s 0 0" % (N, N), "find %s %s -1 3" % (N, A),
+            "count %s %s 0 0" % (N, A), "count %s %s 0 0" % (A, N), "count %s %s 0 0" % (N, N), "count %s - 0 0" % N]
+    return out
+
 
 def group(cases, prefix, lines, per=12):
     for i in range(0, len(lines), per):
@@ -774,6 +1079,21 @@ def generate(rng, tier):
     group(cases, "swapw32", ["swapw32 %d" % v for v in
                              [0, 1, 0xFF, 0x100, 0xFFFF, 0x10000, 0x01020304, 0x80000000, 0xFFFFFFFF, 0xFF000000] +
                              [rng.next() & 0xFFFFFFFF for _ in range(300 if tier == "quick" else 5000)]], 32)
+    # every macro on an operand of EVERY integer type (an lvalue of that type), consumed as uint64 / int64 / uintN and
+    # as a nested round trip: negative values, INT_MIN, low / high bytes >= 0x80, all-ones
+    tv = [0, 1, 0x7F, 0x80, 0xFF, 0x100, 0x7FFF, 0x8000, 0xFFFF, 0x10000, 0x7FFFFFFF, 0x80000000, 0xFFFFFFFF, 1 << 32,
+          0x7FFFFFFFFFFFFFFF, 1 << 63, U64 - 1, 0x11223380, 0x80332211, 0x1122334455667780, 0x8877665544332211,
+          0x0102030405060708, 0xF1F2F3F4F5F6F7F8, U64 - 2, U64 - 0x80, U64 - 0x8000, U64 - 0x80000000, 0x00FF00FF00FF00FF,
+          0xFF00FF00FF00FF00, 0x80, 0x8080, 0x80808080, 0x8080808080808080]
+    tv += [1 << k for k in range(0, 64, 7)]
+    tv += [rng.next() for _ in range(24 if tier == "quick" else 600)]
+    tv += [rng.next() | 0x8000000080008080 for _ in range(12 if tier == "quick" else 200)]
+    st_lines = []
+    for v in tv:
+        for n in (16, 32, 64):
+            for ty in ("i8", "u8", "i16", "u16", "i32", "u32", "i64", "u64"):
+                st_lines.append("swapt %d %s %d" % (n, ty, v))
+    group(cases, "swapt", st_lines, 24)
     # integer parsers
     nums = numerals(rng, tier)
     lines = []
@@ -782,21 +1102,22 @@ def generate(rng, tier):
             continue
         for op in ("toi", "tou", "tol", "toul", "toll", "toull"):
             lines.append("%s %d %s" % (op, base, hx(s)))
+    for op in ("toi", "tou", "tol", "toul", "toll", "toull"):
+        lines += ["%s 10 %s" % (op, NULLTOK), "%s 10 %s P0" % (op, hx(b"12")), "%s 0 %s P0" % (op, NULLTOK),
+                  "%s 1 %s" % (op, NULLTOK), "%s 37 %s P0" % (op, hx(b"12"))]
     group(cases, "int", lines, 12)
-    # float parsers (abstract libc result supplied by the generator)
+    # float parsers (abstract libc result supplied by the generator: consumed, is-inf, ERANGE, is-zero)
     fl = []
     for s in float_cases(rng, tier):
         consumed, num = float_prefix(s)
         for op in ("tof", "tod", "told"):
-            inf, er = (0, 0)
+            inf, zero, er = (0, 1, 0)           # nothing converted: libc returns zero
             if consumed:
-                inf, er = float_class(num, op)
-                if er is None:
-                    t = num.lstrip("+-").lower()
-                    v = float_exact(t) if not t.startswith(("inf", "nan")) else Fraction(1)
-                    # clear underflow to zero reports ERANGE; everything generated otherwise is a normal number
-                    er = 1 if (v != 0 and v < Fraction(1, 10 ** 4990)) else 0
-            fl.append("%s %s %d %d %d" % (op, hx(s), consumed, inf, er))
+                inf, zero, er = float_class(num, op)
+            fl.append("%s %s %d %d %d %d" % (op, hx(s), consumed, inf, er, zero))
+    fl += ["%s %s 0 0 0 0" % (op, NULLTOK) for op in ("tof", "tod", "told")]
+    fl += ["%s %s 1 0 0 0 P0" % (op, hx(b"1")) for op in ("tof", "tod", "told")]
+    fl += ["%s %s 0 0 0 0 P0" % (op, NULLTOK) for op in ("tof", "tod", "told")]
     group(cases, "flt", fl, 12)
     # strip / startswith / endswith on all byte values
     st = []
@@ -834,6 +1155,7 @@ def generate(rng, tier):
                         fc.append("count %s %s %d %d" % (hx(s), hx(sub), a, b))
     fc += ["count %s %s %d %d" % (hx(b"ooooo"), hx(b"o" * k), a, 0) for k in range(1, 7) for a in range(0, 6)]
     group(cases, "findcount", fc, 16)
+    group(cases, "longstr", long_string_lines(rng, tier), 16)
     # hex
     hxs = ["hexbyte %d" % c for c in range(256)]
     for c in range(1, 256):
@@ -856,6 +1178,7 @@ def generate(rng, tier):
     # paths: one call per case (a sanitizer abort ends the case)
     cases += path_cases(rng, tier)
     cases += mixed_path_cases(rng, tier)
+    cases += long_path_cases(rng, tier)
     return cases
 
 
@@ -877,7 +1200,7 @@ def search(rng, diverging, tier):
 
 def nontrivial_key(case, lines):
     if any(l.startswith("ok") or l.startswith("rc=0") for l in lines) or case.lines[0].split(" ")[0] in (
-            "npo2", "swap16", "swap32", "swap64", "swapw", "swapw32", "lstrip", "rstrip", "startswith", "endswith", "find", "count",
+            "npo2", "swap16", "swap32", "swap64", "swapw", "swapw32", "swapt", "lstrip", "rstrip", "startswith", "endswith", "find", "count",
             "hexbyte", "b2hex", "isabs"):
         return "\n".join(case.lines)
     return None
@@ -907,9 +1230,9 @@ def tally(dist, case, lines):
 MANIFEST = {
     "level_text": ("Coq theorems over an executable model of the repaired utilities: next_pow_of_2 is the least power of "
                    "two >= x on [1, 2^63] (bit-smearing lemma over N.testbit) and is tied to the C text by the leaf "
-                   "translator obligation gen_npo2_eq; the six integer parsers succeed with v iff the string is one "
+                   "translator obligation gen_npo2_eq; the six integer parsers succeed with v iff the base is 0 or 2..36 and the string is one "
                    "well-formed in-range numeral with surrounding blanks, relative to a Gallina model of the strtol "
-                   "family that is itself compared with the real libc on every run; path functions never touch a cell "
+                   "family that is itself compared with the real libc on every run, and their C text (NULL/base checks, errno, end-pointer, range and sign chain) is regenerated and proved equal to the model on every run (gen_parsers_eq), as is the text of lstrip/rstrip/startswith/endswith (loops as iteration functions); path functions never touch a cell "
                    "outside the caller's buffer and NUL-terminate every success for all inputs and sizes; normpath, abspath, "
                    "join, dirname, basename, isabs agree with the reference path algebra (path_algebra, path_algebra_leaf); hex round-trip and rejection; endian swaps are involutions; strip/startswith/endswith/find/"
                    "count against list specifications.  Model tied to the code by a differential run on exact-size ASan buffers plus an "
